@@ -34,6 +34,24 @@ CHECKS = {
             'algorithms in both directions (Pair).',
             'deterministic simulation: on-path tamper fault injection grid, '
             'prefix-exact delivery oracle', 'DESIGN.md 4 C01'),
+    'C03': ('c03_kex_binding',
+            'Seeded exploration of handshakes between a real client and server '
+            'with random preference sub-permutations over every non-GSS kex '
+            'method, and an on-path editor that makes one cleartext edit '
+            '(bit flip anywhere in either version string or any handshake '
+            'message, KEXINIT name-list surgery, first_kex_packet_follows, '
+            'host key swap with original/attacker signature, signature/alg '
+            'corruption); oracle: reference negotiation over the original '
+            'lists, equal session ids and exactly the expected algorithms on '
+            'both sides when established, every edit must make connect() fail '
+            'before the server reaches authentication, KeyExchangeFailed iff '
+            'no common algorithm.',
+            COMMON_NOTE + ' Reads conn._session_id and conn._kex.algorithm; '
+            'bytes outside H (padding, CR) are not edited; DH public values '
+            'are only flipped, not replaced by degenerate group elements.',
+            'deterministic simulation: on-path cleartext edit fault '
+            'injection + configuration search, reference negotiation model',
+            'DESIGN.md 4 C03'),
     'C07': ('c07_channel_data',
             'Seeded exploration of multi-channel write/read/pause programs on '
             'a real asyncssh client/server pair under a scheduler that owns '
